@@ -89,6 +89,8 @@ def _mutations(kind, tier, rng, n_inj, idx):
     muts += [{"op": "cut", "n": n} for n in ([1, 16, 17] if tier == "quick" else [1, 2, 15, 16, 17, 32, 40])]
     muts += [{"op": "trunc", "len": n} for n in ([62, 63] if tier == "quick" else [0, 1, 16, 39, 62, 63, 64, 70, 71])]
     muts += [{"op": "extend", "n": n} for n in ([1] if tier == "quick" else [1, 16, 1000])]
+    muts += [{"op": "grow_auth", "n": n} for n in ([1, 24] if tier == "quick" else [1, 2, 4, 24, 100])]
+    muts += [{"op": "shrink_auth", "n": n} for n in ([1] if tier == "quick" else [1, 2, 32])]
     muts += [{"op": "redirect"}]
     for other in range(1, n_inj + 1):
         if other != idx:
@@ -111,8 +113,10 @@ def handler_mutants(behaviours, tier, seed):
             if kind in ("Replay", "Reflect", "Mutate", "PeerRandom"):
                 continue
             muts = _mutations(kind, tier, rng, len(inj), idx)
-            if tier == "quick" and len(muts) > 14:
-                muts = rng.sample(muts, 14)
+            if tier == "quick" and len(muts) > 16:
+                keep = [x for x in muts if x["op"] in ("grow_auth", "shrink_auth", "redirect", "extend")]
+                rest = [x for x in muts if x not in keep]
+                muts = keep + rng.sample(rest, 12)
             for mu in muts:
                 ends = [len(b)] if tier == "quick" and rng.random() < 0.5 else [pos + 1, len(b)]
                 for end in ends:
@@ -121,6 +125,11 @@ def handler_mutants(behaviours, tier, seed):
                         continue
                     for src in ([frm] if (tier == "quick" and rng.random() < 0.7) else [frm, "aA"]):
                         out.append(b[:end] + [{"k": "Mutate", "idx": idx, "from": src, "mut": mu}, {"k": "Quiesce"}])
+                # the tampered variant delivered *instead of* the genuine datagram (a tampered handshake must not consume the challenge usefully)
+                if kind in ("PeerHandshake", "PeerMessage") and mu["op"] != "splice" and (tier != "quick" or mu["op"] in ("grow_auth", "shrink_auth", "extend") or rng.random() < 0.5):
+                    st = dict(b[pos])
+                    st["mut"] = mu
+                    out.append(b[:pos] + [st] + b[pos:] + [{"k": "Quiesce"}])
         # the genuine datagrams presented from another source address
         for idx, (pos, kind, frm) in enumerate(inj, start=1):
             if kind in ("PeerMessage", "PeerHandshake"):
@@ -133,7 +142,7 @@ PARTS = {
         component="handler", spec="MC_Handler.tla",
         mc={"quick": ["MC_Handler_init.cfg"], "thorough": ["MC_Handler_init.cfg", "MC_Handler_tiny.cfg"]},
         goals_cfg="MC_Handler_goal.cfg",
-        goals=["GoalBaseResponder", "GoalBaseInitiator", "GoalBaseRekeyed", ("GoalBaseAwaiting", "MC_Handler_goalnoenr.cfg")],
+        goals=["GoalBaseResponder", "GoalBaseResponderRec", "GoalBaseInitiator", "GoalBaseRekeyed", ("GoalBaseAwaiting", "MC_Handler_goalnoenr.cfg")],
         sim={"quick": [], "thorough": [dict(cfg="MC_Handler_sim.cfg", num=20, depth=30)]},
         derive=handler_mutants,
         drive={"quick": 0, "thorough": 0},
@@ -148,7 +157,7 @@ PARTS = {
         component="handler", spec="MC_Handler.tla",
         mc={"quick": ["MC_Handler_init.cfg"], "thorough": ["MC_Handler_init.cfg", "MC_Handler_tiny.cfg", "MC_Handler_atkq.cfg"]},
         goals_cfg="MC_Handler_goal.cfg",
-        goals=["GoalSecondWay", "GoalNoRecordHs", "GoalRekeyPending", ("GoalRekeyReleasesPending", "MC_Handler_goalenr.cfg"), "GoalEnrlessDone", "GoalTimeoutAll", "GoalBadSigKeepsChallenge",
+        goals=["GoalSecondWay", "GoalNoRecordHs", "GoalRekeyPending", ("GoalRekeyReleasesPending", "MC_Handler_goalenr.cfg"), "GoalEnrlessDone", "GoalTimeoutAll", "GoalBadSigKeepsChallenge", "GoalBadThenGoodHs", "GoalWayAfterReplay", ("GoalSendAfterRotateBack", "MC_Handler_goalrot.cfg"),
                ("GoalForgedHs", "MC_Handler_goalatk.cfg"), ("GoalReplayedHs", "MC_Handler_goalatk.cfg")],
         sim={"quick": [dict(cfg="MC_Handler_sim.cfg", num=60, depth=40)], "thorough": [dict(cfg="MC_Handler_sim.cfg", num=1500, depth=60)]},
         append_ops=[{"k": "Quiesce"}],
@@ -157,7 +166,7 @@ PARTS = {
         formulas={"C01.Attribution": "C01", "C01.KeyDisclosed": "C01", "C02.Delivered": "C02", "C02.MutantAccepted": "C02",
                   "C03.ReplayAccepted": "C03", "C03.NoChallenge": "C03", "C03.WrongSource": "C03", "C03.TwoHandshakes": "C03",
                   "C04.TwoOutcomes": "C04", "C04.EventAfterOutcome": "C04", "C04.NoOutcome": "C04", "C04.TimeoutUnjustified": "C04", "C04.WireBound": "C04",
-                  "C13.Count": "C13", "C13.LeftOver": "C13", "C15.Capacity": "C15", "C15.StaleSessionUsed": "C15",
+                  "C13.Count": "C13", "C13.LeftOver": "C13", "C13.ReleasedEarly": "C13", "C15.Capacity": "C15", "C15.StaleSessionUsed": "C15",
                   "C19.NonceReuse": "C19", "C19.IdNonceReuse": "C19"},
         interesting=_h_interesting, required=_h_required,
         assumptions=["the real Handler::start() loop runs on a paused tokio clock over a virtual socket (hook H1); socket/recv.rs and send.rs (UDP I/O, packet filter call order) are bypassed",
